@@ -302,6 +302,14 @@ theorem randomChoose_minimal (k : Nat) (pool : Pool) (ds : List Nat) (i : Nat)
       ∃ l, (i, l) ∈ cands ∧ ∀ c ∈ cands, l ≤ c.2 :=
   selRandomChoose_spec h
 
+/-- … consequently at least `min(choose, |pool|, #available)` available upstreams carry at least the
+    load of the returned one (it cannot be, say, the single most loaded of three when `choose` is 2) -/
+theorem randomChoose_at_least_that_many_not_less_loaded (k : Nat) (pool : Pool) (ds : List Nat) (i : Nat)
+    (h : (selRandomChoose k pool ds).1 = .sel i) :
+    ∃ u, pool[i]? = some u ∧ u.avail = true ∧
+      min (min k pool.length) (numAvail pool) ≤ ((List.range pool.length).filter (loadedAt pool u.load)).length :=
+  selRandomChoose_count h
+
 /-! ## weighted round robin honours the weights
 
 The weights that take part are those of the upstreams in the pool (`wrrEff ws pool`), their
@@ -570,6 +578,16 @@ theorem proxy_never_exceeds_request_limit (c : PCfg) (p : Policy) (ds : List Nat
     (hpos : 0 < effLimit c.m u) : l ≤ effLimit c.m u :=
   (prun_inv c evs _ (pinit_inv p c ds)).2 j l u hl hu hpos
 
+/-- static upstreams, failures remembered (`fail_duration`), `max_fails` 1: within one request no
+    upstream is tried twice — a failed round trip makes the upstream unavailable for the next
+    iteration — and the upstream that finally answers has not been tried before -/
+theorem proxy_failed_upstream_not_tried_again (c : PCfg) (hold get : Bool) (s : PState)
+    (hdyn : c.dyn = false) (hfd : c.fd = true) (hmf : c.mf ≤ 1) :
+    ((attempt c hold get c.retries .none s).1.filter Option.isSome).Nodup ∧
+    ∀ i, (attempt c hold get c.retries .none s).2.1 = .sent i → some i ∉ (attempt c hold get c.retries .none s).1 :=
+  let ⟨h1, _, h3⟩ := attempt_no_retry_of_failed c hold get hdyn hfd hmf c.retries .none s
+  ⟨h1, fun i hi => (h3 i hi).2⟩
+
 /-- a request makes at most `lb_retries + 1` loop iterations (round trips and nil selections
     together); one that is proxied in the end has failed at most `lb_retries` times before -/
 theorem proxy_attempts_bounded (c : PCfg) (hold get : Bool) (s : PState) :
@@ -577,6 +595,14 @@ theorem proxy_attempts_bounded (c : PCfg) (hold get : Bool) (s : PState) :
     ∀ i, (attempt c hold get c.retries .none s).2.1 = .sent i →
       (attempt c hold get c.retries .none s).1.length ≤ c.retries :=
   (attempt_post c hold get c.retries .none s).bound
+
+/-- a request that fails before its `lb_retries` are used up is one that must not be repeated: it
+    is not retryable (and its last error was not a dial error) — every other failing request gets
+    all its iterations -/
+theorem proxy_gives_up_early_only_if_not_retryable (c : PCfg) (hold get : Bool) (s : PState) (code : Nat)
+    (h : (attempt c hold get c.retries .none s).2.1 = .status code)
+    (hl : (attempt c hold get c.retries .none s).1.length ≤ c.retries) : retryable c get = false :=
+  attempt_gives_up_early c hold get c.retries .none s code h hl
 
 /-- a request is refused with 503 only if the first `Select` found nothing: no upstream was
     available then (for the policies and under the exclusions of `select_some_if_any_available_partial`) -/
@@ -1004,5 +1030,15 @@ example : (prun { exCfg with rm := 1, ups := [⟨7, 0, 2⟩, ⟨9, 0, 0⟩] } (p
     [.arrive false false, .arrive false true]).1 = [.req [some 0] (.sent 1), .req [] (.sent 1)] ∧
   (prun { exCfg with rm := 1, fd := false, ups := [⟨7, 0, 2⟩, ⟨9, 0, 0⟩] } (pinit .first { exCfg with rm := 1, fd := false, ups := [⟨7, 0, 2⟩, ⟨9, 0, 0⟩] } [])
     [.arrive false false, .arrive false true]).1 = [.req [some 0, some 0, some 0] (.status 502), .req [some 0] (.status 502)] := by decide
+
+-- randomChoose_at_least_that_many_not_less_loaded: loads 3,1,1 among the available; the returned one has load 1,
+-- all three available upstreams carry at least that; 2 = min(choose 2, 5, 3 available) ≤ 3
+example : ((List.range exPool.length).filter (loadedAt exPool 1)).length = 3 ∧
+    ((List.range exPool.length).filter (loadedAt exPool 3)).length = 1 := by decide
+-- proxy_failed_upstream_not_tried_again: two failing upstreams, then the good one; each tried once
+example : (attempt { exCfg with ups := [⟨7, 0, 1⟩, ⟨9, 0, 2⟩, ⟨11, 0, 0⟩] } false true 2 .none
+    (pinit .first { exCfg with ups := [⟨7, 0, 1⟩, ⟨9, 0, 2⟩, ⟨11, 0, 0⟩] } [])).1 = [some 0, some 1] ∧
+  (attempt { exCfg with ups := [⟨7, 0, 1⟩, ⟨9, 0, 2⟩, ⟨11, 0, 0⟩] } false true 2 .none
+    (pinit .first { exCfg with ups := [⟨7, 0, 1⟩, ⟨9, 0, 2⟩, ⟨11, 0, 0⟩] } [])).2.1 = .sent 2 := by decide
 
 end CaddyModel.C08
